@@ -498,6 +498,9 @@ def body(chk, db, cfgname):
 
     with r4.guard("r4:section", "(see detail)", cfgname):
         _sec_r4()
+    r_idem = chk.rule("C09-R6", "prepare()/compute() are idempotent: the early-return level is the level the function establishes", "F1 pairing", 3)
+    from checks.lehmann import check_status_guards
+    check_status_guards(r_idem, db, cfgname, ("Pomerol::DensityMatrix", "Pomerol::EnsembleAverage"))
     chk.undecided.append("finiteness for extreme beta*bandwidth beyond the sign argument of R2; trace identities at the value level; normalisation to one up to rounding")
 def unbool(k):
     return k
